@@ -263,7 +263,7 @@ fn schedule_body() {
     reach!("c05_schedule");
 }
 
-//@ props=C05,C18,C01,C15 tier=quick timeout=2400 weight=heavy fns=src/rt/execution.rs::Execution::schedule,src/rt/object.rs::Store::last_dependent_access,src/rt/object.rs::Store::set_last_access,src/rt/mutex.rs::State::last_dependent_access,src/rt/mutex.rs::State::set_last_access,src/rt/thread.rs::Set::set_active,src/rt/path.rs::Path::branch_thread,src/rt/path.rs::Path::backtrack bounded=threads:N=3,path:depth=1,objects:2_mutexes models=VersionVec::join=s_vv_models_agree,Path::backtrack=c01_path_backtrack*,Schedule::active_thread_index=c15_schedule_preemptions
+//@ props=C05,C18,C01,C15 tier=quick timeout=2400 fns=src/rt/execution.rs::Execution::schedule,src/rt/object.rs::Store::last_dependent_access,src/rt/object.rs::Store::set_last_access,src/rt/mutex.rs::State::last_dependent_access,src/rt/mutex.rs::State::set_last_access,src/rt/thread.rs::Set::set_active,src/rt/path.rs::Path::branch_thread,src/rt/path.rs::Path::backtrack bounded=threads:N=3,path:depth=1,objects:2_mutexes models=VersionVec::join=s_vv_models_agree,Path::backtrack=c01_path_backtrack*,Schedule::active_thread_index=c15_schedule_preemptions
 #[kani::proof]
 #[kani::unwind(8)]
 #[kani::stub(std::hash::RandomState::new, crate::rt::thread::verif_kani::fixed_random_state)]
@@ -274,7 +274,7 @@ fn c05_schedule_n3() {
     schedule_body();
 }
 
-//@ props=C05 tier=quick timeout=2400 weight=heavy fns=src/rt/execution.rs::Execution::schedule bounded=threads:N=3,path:depth=1 expect_panic=deadlock
+//@ props=C05 tier=quick timeout=2400 fns=src/rt/execution.rs::Execution::schedule bounded=threads:N=3,path:depth=1 expect_panic=deadlock
 #[kani::proof]
 #[kani::unwind(8)]
 #[kani::stub(std::hash::RandomState::new, crate::rt::thread::verif_kani::fixed_random_state)]
